@@ -195,6 +195,21 @@ func (w *Writer) AddRef(r *RefRecord) error {
 			r.UpdateIndex, w.minUpdateIndex, w.maxUpdateIndex)
 	}
 
+	// The value type of a ref record is derived from which of
+	// Value, TargetValue and Target are set, and the reader takes
+	// the hash size from the table: anything else cannot be
+	// decoded again.
+	hashSize := w.cfg.HashID.Size()
+	if len(r.Value) > 0 && len(r.Value) != hashSize {
+		return fmt.Errorf("reftable: ref %q: Value has %d bytes, want %d", r.RefName, len(r.Value), hashSize)
+	}
+	if len(r.TargetValue) > 0 && (len(r.TargetValue) != hashSize || len(r.Value) == 0) {
+		return fmt.Errorf("reftable: ref %q: TargetValue needs %d bytes and a Value", r.RefName, hashSize)
+	}
+	if len(r.Target) > 0 && (len(r.Value) > 0 || len(r.TargetValue) > 0) {
+		return fmt.Errorf("reftable: ref %q has both a value and a symbolic target", r.RefName)
+	}
+
 	cpy := *r
 	cpy.UpdateIndex -= w.minUpdateIndex
 	if err := w.add(&cpy); err != nil {
